@@ -93,6 +93,15 @@ func (tcScenario) Build(cfg string) ([]func(), func(*vsched.Sched) []string) {
 		if mode == "period" && succ == 0 {
 			problems = append(problems, "no eligible check succeeded although the gate was open (callback fired or never armed)")
 		}
+		// liveness at quiescence: once every armed callback has fired and the period is long over, an eligible check
+		// succeeds — whatever happened during the race (a callback that ran inside the arming call included)
+		for fired < len(callbacks) {
+			callbacks[fired]()
+			fired++
+		}
+		if !tc.Check(at(10_000_000)) {
+			problems = append(problems, "after all callbacks fired, a check long after the sleep period is still refused (the gate is stuck)")
+		}
 		return problems
 	}
 	return bodies, monitor
